@@ -36,6 +36,8 @@ typedef struct {
     g_off_t pos0[G_NFD]; size_t wr0[G_NFD]; int failed0;
     int ww_fd; g_off_t ww_off; unsigned ww_hit0; char ww_val0;
     int dl_null, zck_null, mp_null, has_boundary, wcb, hcb; size_t l, c;
+    int nx[3], first, range_null, idx_first_null;   /* control-only unit: arbitrary links among the named nodes */
+    regex_t anyrx[3]; int rx_state[3]; size_t buffer_len; int boundary_len;   /* callbacks: parser side */
     char bytes[16];
 } IN_dl;
 V_INPUT(IN_dl)
@@ -82,7 +84,13 @@ void h_dl_write(void) {
     zckCtx *zck = mk_tgt(&in);
     zckDL *dl = malloc(sizeof(*dl));
     V_ASSUME(dl != NULL);
-    *dl = in.anydl; dl->zck = zck; dl->write_in_chunk = in.wic; dl->dl_chunk_data = in.dlcd;
+    *dl = in.anydl; dl->zck = zck; dl->range = NULL; dl->write_in_chunk = in.wic; dl->dl_chunk_data = in.dlcd;
+    mk_targets(&in, zck);
+    zckChunk *c = g_tg[0];
+    dl->tgt_check = in.chk >= 0 ? c : NULL;
+    g_off_t lo = (g_off_t)in.data_offset + (g_off_t)c->start;
+    /* DL_WIN: bytes are only expected while the descriptor stands inside the extent of the (not valid) chunk being filled */
+    V_ASSUME(in.wic == 0 || in.err0 > 0 || (in.chk >= 0 && c->valid != 1 && in.wic <= c->comp_length && g_fpos[G_IX(in.fd)] == lo + (g_off_t)(c->comp_length - in.wic)));
     V_ASSUME(in.len <= 16);
     char *at = malloc(in.len);
     V_ASSUME(at != NULL);
@@ -90,6 +98,7 @@ void h_dl_write(void) {
     g_off_t p0 = g_fpos[G_IX(in.fd)];
     int r = dl_write(dl, at, in.len);
     size_t m = in.wic < in.len ? in.wic : in.len;
+    V_ASSERT((g_ww_hit == in.ww_hit0 && g_ww_val == in.ww_val0) || (in.chk >= 0 && c->valid != 1 && in.fd == in.ww_fd && (g_off_t)(in.ww_off - lo) < (g_off_t)c->comp_length), "C05,C17.dl_write.only_the_extent_of_the_chunk_being_filled_is_written_and_that_chunk_is_not_valid");
     V_ASSERT(r == -1 || (size_t)r == m, "C05.dl_write.writes_min_of_remaining_and_length");
     V_ASSERT(r <= 0 || !(in.fd == in.ww_fd && (g_off_t)(in.ww_off - p0) < (g_off_t)r) || (g_ww_hit == in.ww_hit0 + 1 && g_ww_val == at[in.ww_off - p0]), "C05.dl_write.file_receives_the_bytes_in_order");
     V_ASSERT((in.fd == in.ww_fd && (g_off_t)(in.ww_off - p0) < (g_off_t)m) || (g_ww_hit == in.ww_hit0 && g_ww_val == in.ww_val0), "C05,C17.dl_write.nothing_outside_the_span_is_written");
@@ -121,7 +130,7 @@ void h_set_chunk_valid(void) {
     mk_targets(&in, zck);
     zckDL *dl = malloc(sizeof(*dl));
     V_ASSUME(dl != NULL);
-    *dl = in.anydl; dl->zck = zck; dl->write_in_chunk = in.wic; dl->tgt_check = g_tg[0];
+    *dl = in.anydl; dl->zck = zck; dl->range = NULL; dl->write_in_chunk = in.wic; dl->tgt_check = g_tg[0];
     zckChunk *c = g_tg[0];
     V_ASSUME(c->valid != 1);
     g_off_t lo = (g_off_t)in.data_offset + (g_off_t)c->start;
@@ -204,6 +213,200 @@ void h_dl_write_range(void) {
     V_COVER(r > 0 && in.wic == 0 && in.chk < 0 && dl->tgt_check != NULL);   /* matched a chunk from idle */
     V_COVER(r == 0 && in.len > 0 && in.err0 == 0 && zck->error_state == 0 && in.wic == 0 && dl->tgt_check == NULL);   /* nobody expects these bytes */
     V_COVER(r > 0 && (size_t)r < in.len);
+}
+
+/* ---- control-only unit: the requested-range list is two named nodes with ARBITRARY contents and links (any graph
+ * over the two nodes, cycles and sharing of target chunks included); nothing about list shape is assumed.  The
+ * list scan is closed by a loop contract, so the number of scan steps plays no role. -------------------------- */
+static zckChunk *pick_node(int k) { return k == 1 ? g_rg[0] : k == 2 ? g_rg[1] : NULL; }
+void h_dl_write_range_ctl(void) {
+    IN_dl in = nondet_IN_dl();
+    zckCtx *zck = mk_tgt(&in);
+    if(in.idx_first_null) zck->index.first = NULL;
+    for(int i = 0; i < 2; i++) {
+        g_tg[i] = malloc(sizeof(zckChunk)); g_rg[i] = malloc(sizeof(zckChunk));
+        V_ASSUME(g_tg[i] != NULL && g_rg[i] != NULL);
+        *g_tg[i] = in.anyc[i]; *g_rg[i] = in.anyr[i];
+    }
+    g_tg[2] = g_rg[2] = NULL;
+    for(int i = 0; i < 2; i++) { g_rg[i]->src = g_tg[in.src_of[i] & 1]; g_rg[i]->next = pick_node(in.nx[i]); }
+#ifdef VERIF_DL_ACYCLIC
+    V_ASSUME(in.nx[0] != 1 && in.nx[1] == 0);      /* bounded variant: no cycles (the scan is unwound, not closed by a loop contract) */
+#endif
+    g_dr1 = g_rg[0]; g_dr2 = g_rg[1]; g_dr3 = NULL;
+    zckDL *dl = malloc(sizeof(*dl));
+    V_ASSUME(dl != NULL);
+    *dl = in.anydl;
+    dl->zck = zck; dl->range = NULL;
+    if(!in.range_null) {
+        dl->range = malloc(sizeof(zckRange)); V_ASSUME(dl->range != NULL);
+        *dl->range = in.anyrange; dl->range->index.first = pick_node(in.first); dl->range->index.current = pick_node(in.cur);
+    }
+    dl->write_in_chunk = in.wic; dl->dl_chunk_data = in.dlcd;
+    dl->tgt_check = in.chk < 0 ? NULL : g_tg[in.chk & 1];
+    V_ASSUME(in.err0 > 0 || dl_state_ok(&in, dl));
+    V_ASSUME(in.len <= 16);
+    char *at = malloc(in.len);
+    V_ASSUME(at != NULL);
+    int valid0[2] = { g_tg[0]->valid, g_tg[1]->valid };
+    zckChunk *chk0 = dl->tgt_check;
+    int r = dl_write_range(dl, at, in.len);
+    V_ASSERT(r >= 0 && (size_t)r <= in.len, "C05,C17.dl_write_range.consumes_at_most_length");
+    for(int i = 0; i < 2; i++) {
+        V_ASSERT(valid0[i] != 1 || g_tg[i]->valid == 1, "C05.dl_write_range.valid_chunks_stay_valid");
+        V_ASSERT(valid0[i] != 1 || dl->tgt_check != g_tg[i], "C05.dl_write_range.a_valid_chunk_is_never_selected_for_filling");
+        V_ASSERT(valid0[i] == -1 || g_tg[i]->valid != -1 || r == 0, "C05.dl_write_range.a_checksum_mismatch_makes_the_call_report_zero");
+    }
+    V_ASSERT(zck->error_state > 0 || dl_state_ok(&in, dl), "C05,C17.dl_write_range.state_invariant_kept_on_every_return");
+    V_ASSERT(in.err0 == 0 || (r == 0 && g_ww_hit == in.ww_hit0 && g_ww_val == in.ww_val0), "C05,C12.dl_write_range.context_in_error_is_refused");
+    V_ASSERT(zck->error_state == 0 || in.err0 > 0 || r == 0, "C05,C12.dl_write_range.an_error_raised_during_the_call_makes_it_report_zero");
+    V_COVER(r > 0 && (size_t)r == in.len && in.wic > 0 && in.wic < in.len && dl->write_in_chunk > 0);      /* finished one chunk, verified it, started the next */
+    V_COVER(r == 0 && in.err0 == 0 && zck->error_state == 0 && in.wic > 0 && chk0 != NULL && chk0->valid == -1);   /* checksum mismatch */
+    V_COVER(r > 0 && in.wic == 0 && in.chk < 0 && dl->tgt_check != NULL);   /* matched a chunk from idle */
+    V_COVER(r == 0 && in.len > 0 && in.err0 == 0 && zck->error_state == 0 && in.wic == 0 && dl->tgt_check == NULL);   /* nobody expects these bytes */
+    V_COVER(r > 0 && (size_t)r < in.len);
+#ifndef VERIF_DL_ACYCLIC
+    V_COVER(r > 0 && in.nx[0] == 1 && in.nx[1] == 1);     /* cyclic list */
+#else
+    V_COVER(r > 0 && in.wic == 0 && in.chk < 0 && dl->tgt_check != NULL && in.first == 1 && in.nx[0] == 2 && dl->tgt_check == g_rg[1]->src && g_rg[1]->src != g_rg[0]->src);  /* second entry matched */
+#endif
+}
+
+/* ---- the transport callbacks: download state as in the control-only unit (named nodes, arbitrary links) plus the
+ * multipart parser side (patterns NULL or compiled, carried buffer, boundary) ----------------------------------- */
+static regex_t *mk_rx_dl(IN_dl *in, int i) {
+    if(in->rx_state[i] == 0) return NULL;
+    regex_t *r = malloc(sizeof(*r));
+    V_ASSUME(r != NULL);
+    *r = in->anyrx[i]; r->re_nsub = RX_MAGIC;
+    return r;
+}
+static zckDL *mk_cb_dl(IN_dl *in) {
+    zckCtx *zck = mk_tgt(in);
+    for(int i = 0; i < 2; i++) {
+        g_tg[i] = malloc(sizeof(zckChunk)); g_rg[i] = malloc(sizeof(zckChunk));
+        V_ASSUME(g_tg[i] != NULL && g_rg[i] != NULL);
+        *g_tg[i] = in->anyc[i]; *g_rg[i] = in->anyr[i];
+    }
+    g_tg[2] = g_rg[2] = NULL;
+    for(int i = 0; i < 2; i++) { g_rg[i]->src = g_tg[in->src_of[i] & 1]; g_rg[i]->next = pick_node(in->nx[i]); }
+    g_dr1 = g_rg[0]; g_dr2 = g_rg[1]; g_dr3 = NULL;
+    zckDL *dl = malloc(sizeof(*dl));
+    V_ASSUME(dl != NULL);
+    *dl = in->anydl;
+    dl->zck = zck; dl->range = NULL;
+    if(!in->range_null) {
+        dl->range = malloc(sizeof(zckRange)); V_ASSUME(dl->range != NULL);
+        *dl->range = in->anyrange; dl->range->index.first = pick_node(in->first); dl->range->index.current = pick_node(in->cur);
+    }
+    dl->write_in_chunk = in->wic; dl->dl_chunk_data = in->dlcd;
+    dl->tgt_check = in->chk < 0 ? NULL : g_tg[in->chk & 1];
+    V_ASSUME(in->err0 > 0 || dl_state_ok(in, dl));
+    dl->hdr_regex = mk_rx_dl(in, 0); dl->dl_regex = mk_rx_dl(in, 1); dl->end_regex = mk_rx_dl(in, 2);
+    V_ASSUME(dl->dl_regex == NULL || dl->end_regex != NULL);
+    dl->mp = NULL;
+    if(!in->mp_null) {
+        dl->mp = malloc(sizeof(zckMP)); V_ASSUME(dl->mp != NULL); *dl->mp = in->anymp;
+        dl->mp->buffer = NULL;
+        V_ASSUME(in->buffer_len <= 6);
+        if(in->buffer_len > 0) { dl->mp->buffer = malloc(in->buffer_len); V_ASSUME(dl->mp->buffer != NULL); dl->mp->buffer_len = in->buffer_len; }
+    }
+    dl->boundary = NULL;
+    if(in->has_boundary) {
+        V_ASSUME(in->boundary_len >= 0 && in->boundary_len <= 7);
+        dl->boundary = malloc(in->boundary_len + 1); V_ASSUME(dl->boundary != NULL);
+        dl->boundary[in->boundary_len] = 0;
+    }
+    dl->write_cb = in->wcb ? verif_user_wcb : NULL; dl->header_cb = in->hcb ? verif_user_wcb : NULL;
+    return dl;
+}
+void h_zck_write_chunk_cb(void) {
+    IN_dl in = nondet_IN_dl();
+#ifdef VERIF_NO_USER_CB
+    in.wcb = 0;   /* variant: no client callback chained */
+#endif
+    zckDL *dl = in.dl_null ? NULL : mk_cb_dl(&in);
+    V_ASSUME(in.l <= 16 && in.c <= 16 && in.l * in.c <= 16);
+    size_t n = in.l * in.c;
+    char *p = malloc(n);
+    V_ASSUME(p != NULL);
+    int valid0[2] = { dl ? g_tg[0]->valid : 0, dl ? g_tg[1]->valid : 0 };
+    size_t r = zck_write_chunk_cb(p, in.l, in.c, dl);
+    if(dl != NULL && n > 0) {
+        for(int i = 0; i < 2; i++) V_ASSERT(valid0[i] == -1 || g_tg[i]->valid != -1 || r != n, "C05.zck_write_chunk_cb.a_checksum_mismatch_is_reported_by_the_callback");
+        V_ASSERT(in.err0 == 0 || r != n, "C05,C12,C17.zck_write_chunk_cb.a_context_in_error_is_reported_by_the_callback");
+    }
+    V_COVER(dl != NULL && r == n && n > 0 && !in.has_boundary && in.wic > 0);
+    V_COVER(dl != NULL && r == n && n > 0 && in.has_boundary);
+    V_COVER(dl != NULL && r == 0 && n > 0 && in.err0 == 0 && dl->zck->error_state == 0 && valid0[0] == 0 && g_tg[0]->valid == -1 && !in.has_boundary);   /* checksum mismatch reported */
+    V_COVER(dl == NULL && r == 0);
+#ifndef VERIF_NO_USER_CB
+    V_COVER(dl != NULL && in.wcb && r == n && n > 0);
+#endif
+}
+void h_zck_write_zck_header_cb(void) {
+    IN_dl in = nondet_IN_dl();
+#ifdef VERIF_NO_USER_CB
+    in.wcb = 0;
+#endif
+    zckDL *dl = NULL;
+    if(!in.dl_null) {
+        zckCtx *zck = mk_tgt(&in);
+        dl = malloc(sizeof(*dl)); V_ASSUME(dl != NULL);
+        *dl = in.anydl; dl->zck = zck;
+        dl->write_cb = in.wcb ? verif_user_wcb : NULL; dl->header_cb = in.hcb ? verif_user_wcb : NULL;
+    }
+    V_ASSUME(in.l <= 16 && in.c <= 16 && in.l * in.c <= 16);
+    size_t n = in.l * in.c;
+    char *p = malloc(n);
+    V_ASSUME(p != NULL);
+    size_t wr0 = dl ? g_wr_bytes[G_IX(in.fd)] : 0;
+    size_t r = zck_write_zck_header_cb(p, in.l, in.c, dl);
+    V_ASSERT(dl == NULL || r != n || g_wr_bytes[G_IX(in.fd)] == wr0 + n, "C12.zck_write_zck_header_cb.accepting_means_every_byte_was_written");
+    V_COVER(dl != NULL && r == n && n > 0); V_COVER(dl != NULL && r != n && n > 0 && g_wr_bytes[G_IX(in.fd)] < wr0 + n); V_COVER(dl == NULL && r == 0);
+}
+void h_zck_header_cb(void) {
+    IN_dl in = nondet_IN_dl();
+    zckDL *dl = in.dl_null ? NULL : mk_cb_dl(&in);
+    if(dl != NULL && in.zck_null) dl->zck = NULL;
+    V_ASSUME(in.l <= 24 && in.c <= 24 && in.l * in.c <= 24);
+    size_t n = in.l * in.c;
+    char *b = malloc(n);
+    V_ASSUME(b != NULL);
+    size_t r = zck_header_cb(b, in.l, in.c, dl);
+    V_ASSERT(dl == NULL || dl->hdr_regex == NULL || RX_COMPILED(dl->hdr_regex), "C17.zck_header_cb.no_uncompiled_pattern_left_behind_on_any_return");
+    V_ASSERT(dl == NULL || in.hcb || r == n, "C17.zck_header_cb.header_lines_are_always_accepted");
+    V_COVER(dl != NULL && r == n && n > 0 && !in.hcb); V_COVER(dl != NULL && in.hcb); V_COVER(dl == NULL && r == 0);
+}
+
+/* ---- life-cycle units ------------------------------------------------------------------------------------- */
+void h_clear_dl_regex(void) {
+    IN_dl in = nondet_IN_dl();
+    zckDL *dl = in.dl_null ? NULL : mk_cb_dl(&in);
+    clear_dl_regex(dl);
+    V_ASSERT(dl == NULL || (dl->hdr_regex == NULL && dl->dl_regex == NULL && dl->end_regex == NULL), "C17.clear_dl_regex.no_pattern_pointer_survives");
+    V_COVER(dl != NULL && in.rx_state[0] && in.rx_state[1] && in.rx_state[2]); V_COVER(dl != NULL && !in.rx_state[0] && !in.rx_state[1] && in.rx_state[2]); V_COVER(dl == NULL);
+}
+void h_zck_dl_reset(void) {
+    IN_dl in = nondet_IN_dl();
+    zckDL *dl = in.dl_null ? NULL : mk_cb_dl(&in);
+    if(dl != NULL && in.zck_null) dl->zck = NULL;
+    zckMP *mp0 = dl ? dl->mp : NULL; size_t d0 = dl ? dl->dl : 0;
+    zck_dl_reset(dl);
+    V_ASSERT(dl == NULL || (dl->hdr_regex == NULL && dl->dl_regex == NULL && dl->end_regex == NULL && dl->boundary == NULL), "C17.zck_dl_reset.no_pattern_or_boundary_pointer_survives");
+    V_ASSERT(dl == NULL || (dl->mp == mp0 && dl->dl == d0), "C17.zck_dl_reset.keeps_context_parser_object_and_statistics");
+    V_COVER(dl != NULL && in.rx_state[1] && in.has_boundary && !in.mp_null && in.buffer_len > 0); V_COVER(dl != NULL && in.mp_null); V_COVER(dl == NULL);
+}
+void h_zck_dl_free(void) {
+    IN_dl in = nondet_IN_dl();
+    zckDL *dl = mk_cb_dl(&in);
+    if(in.zck_null) dl->zck = NULL;
+    zckDL **pp = malloc(sizeof(*pp));
+    V_ASSUME(pp != NULL);
+    *pp = dl;
+    zck_dl_free(pp);
+    V_ASSERT(*pp == NULL, "C17.zck_dl_free.pointer_cleared");
+    V_COVER(in.rx_state[0] && in.rx_state[1] && in.has_boundary && !in.mp_null && in.buffer_len > 0); V_COVER(in.mp_null);
 }
 
 #ifdef VERIF_NATIVE
